@@ -14,6 +14,8 @@ func dispatch(cmd string, args []string) int {
 		return cmdLive(args)
 	case "C10":
 		return cmdImport(args)
+	case "C11":
+		return cmdExport(args)
 	default:
 		fmt.Println("unknown command", cmd)
 		return 2
